@@ -639,7 +639,7 @@ func c19Gen(c *Ctx) {
 		}
 	}
 	// goz.LogPanic with every interesting traceback depth (internal buffer sizes of the stack printer)
-	for _, d := range []int64{1, 2, 3, 5, 7, 8, 9, 15, 16, 17, 31, 32, 33, 34, 35, 36, 37, 38, 39, 40, 48, 63, 64, 65, 66, 69, 70, 100, 127, 128, 129, 133, 255, 256, 257, 261, 1000, 4096} {
+	for _, d := range []int64{5000 /* = depth 0 */, 1, 2, 3, 5, 7, 8, 9, 15, 16, 17, 31, 32, 33, 34, 35, 36, 37, 38, 39, 40, 48, 63, 64, 65, 66, 69, 70, 100, 127, 128, 129, 133, 255, 256, 257, 261, 1000, 4096} {
 		hostile = append(hostile, []int64{4, 2, 1 + 4*d, 0, 1})
 		if d%2 == 1 || c.Tier == "thorough" {
 			hostile = append(hostile, []int64{4, 1, 1 + 4*d, 1, 2})
@@ -775,7 +775,7 @@ func c19Describe(in []int64) string {
 		return fmt.Sprintf("NewLimiter(%d), %d submitters x %d empty tasks, then Wait", in[1], in[2], in[3])
 	case 4:
 		if len(in) == 5 {
-			return fmt.Sprintf("child process: NewLimiter(%d), handler %d (mod 4: 0 none, 1 goz.LogPanic with depth handler/4 (0 = 6), 2 plain func), %d tasks panic with value kind %d (0 int, 1 typed-nil error, 2 Stringer that panics, 3 Formatter that panics, 4 error whose Error panics, 5/6 structs holding such values); Wait; fill the limiter; Wait", in[1], in[2], in[4], in[3])
+			return fmt.Sprintf("child process: NewLimiter(%d), handler %d (mod 4: 0 none, 1 goz.LogPanic with depth handler/4 (0 = 6, 5000 = depth 0), 2 plain func), %d tasks panic with value kind %d (0 int, 1 typed-nil error, 2 Stringer that panics, 3 Formatter that panics, 4 error whose Error panics, 5/6 structs holding such values); Wait; fill the limiter; Wait", in[1], in[2], in[4], in[3])
 		}
 	}
 	return "?"
